@@ -66,7 +66,7 @@ func (m *c15lc) counts() []int {
 	}
 	return out
 }
-func (m *c15lc) Key() string  { return fmt.Sprint(m.counts()) }
+func (m *c15lc) Key() string  { return fmt.Sprint(m.counts()) + seqmc.Scalars(m.lb) }
 func (m *c15lc) Expand() bool { return true }
 func (m *c15lc) Ops() []seqmc.Op {
 	ops := []seqmc.Op{}
